@@ -139,9 +139,11 @@ class Gen:
             return "[%s!]" % base
         if r < 0.9:
             return "[%s!]%s" % (base, nn)
+        # lists directly wrapping lists, every depth / nullability (a modifier-peeling generator must keep each layer)
+        self.feat("type:nested-list")
         if r < 0.95:
-            return "[[%s]]" % base
-        return "[[%s!]!]%s" % (base, nn)
+            return self.rng.choice(["[[%s]]", "[[%s]]", "[[%s!]]", "[[[%s]]]", "[[[%s]]]" + nn, "[[%s]]" + nn]) % base
+        return self.rng.choice(["[[%s!]!]" + nn, "[[%s]!]" + nn, "[[[%s!]]!]" + nn]) % base
 
     # -- literals (type-directed)
     def literal(self, type_text: str, depth: int = 0, avail_inputs: Optional[List[str]] = None) -> Optional[str]:
@@ -182,7 +184,7 @@ class Gen:
             self.feat("default:list")
             return "[" + ", ".join(items) + "]"  # type: ignore
         if self.dstress and t in ("Int", "String", "Boolean", "Float") and self.p(0.4):
-            self.feat("default:falsy")
+            self.feat("default:falsy" if depth else "default:falsy-top-level")
             return {"Int": "0", "String": '""', "Boolean": "false", "Float": "0.0"}[t]
         if t == "Int":
             self.feat("default:int")
